@@ -57,3 +57,21 @@ package memstore
 //@ iface MemStoreI.Size
 //@   ensures r0 >= 0
 //@   pure
+
+// ---------------------------------------------------------------------------------------------------
+// C11: flushing reports every failure - of the writer's Open and Close, of every WriteNext, of the iterator.
+
+//@ func flushMemstore
+//@   props C11 C14
+//@   replay flush_faults
+//@   requires m.skipListMap != nil
+//@   exit [open-error-reported] called(Open, 0) && callres(Open, 0, 0) != nil ==> r0 != nil
+//@   exit [close-error-reported] called(Close, 0) && callres(Close, 0, 0) != nil ==> r0 != nil && errIs(r0, callres(Close, 0, 0))
+//@   exit [write-error-reported] (called(WriteNext, 0) && callres(WriteNext, 0, 0) != nil ==> r0 != nil) &&
+//@        (called(WriteNext, 1) && callres(WriteNext, 1, 0) != nil ==> r0 != nil)
+//@   exit [iterator-error-reported] called(IteratorI.Next, 0) && callres(IteratorI.Next, 0, 2) != nil && !errIs(callres(IteratorI.Next, 0, 2), skiplist.Done) ==> r0 != nil
+//@   exit [success-means-writer-closed] r0 == nil ==> called(Close, 0) && callres(Close, 0, 0) == nil
+//@   loop 0
+//@     invariant writer != nil && swReady(writer) && it != nil
+//@     invariant [failed-step-stops-the-flush] (called(WriteNext, 0) ==> callres(WriteNext, 0, 0) == nil) && (called(WriteNext, 1) ==> callres(WriteNext, 1, 0) == nil) &&
+//@               (called(IteratorI.Next, 0) ==> callres(IteratorI.Next, 0, 2) == nil)
